@@ -175,22 +175,47 @@ GoPipeRun(p, i, e, lbls) ==
              THEN IF TreeHolds(st.tree, lbls) THEN GoPipeRun(p, i + 1, e, lbls) ELSE [ok |-> FALSE, lbls |-> lbls]
              ELSE GoPipeRun(p, i + 1, e, GoStageLabels(st, e, lbls))
 
-(*------------------------------------ the whole plan for a log query ---------------------------------------*)
-PlanRow(q, db, i) ==
-    LET ch == CHPipe(q.p)
-        r1 == SqlPipe(ch, 1, db[i], NoLabels, LabelsJoinIdx(ch), db)
-    IN  IF ~r1.ok \/ BreakIdx(q.p) = 0 THEN r1 ELSE GoPipeRun(GoPipe(q.p), 1, db[i], r1.lbls)
+(*------------------------------------ logql_parser (model_v2.go) ------------------------------------------*)
+(* StrSelectorPipeline tries  "|" LabelFilter  before  "|" Parser : `| json != "x"` and `| json !~ "x"` are    *)
+(* read as a label filter on a label called json (absent, so the filter holds) and neither the json stage nor  *)
+(* the line filter exists any more.                                                                            *)
+RECURSIVE ParsedPipe(_, _)
+ParsedPipe(p, i) ==
+    IF i > Len(p) THEN <<>>
+    ELSE IF p[i].k = "json" /\ i < Len(p) /\ p[i + 1].k = "lf" /\ p[i + 1].op \in {"!=", "!~"}
+         THEN ParsedPipe(p, i + 2)
+         ELSE <<p[i]>> \o ParsedPipe(p, i + 1)
 
-PlanEval(q, db) ==
-    LET ch   == CHPipe(q.p)
+(*------------------------------------ the whole plan for a log query ---------------------------------------*)
+(* planner_line_filter.go doLike renders like(samples.string, ..): the alias samples exists in the first block  *)
+(* (FROM samples_v3 AS samples) and after a MainRenewPlanner (FROM subsel AS samples) but not in the block      *)
+(* LabelsJoinPlanner creates (FROM main JOIN _time_series): ClickHouse rejects the statement.                   *)
+UsesLike(st) == st.k = "lf" /\ (st.op \in {"|=", "!="} \/ IsLiteralRe(st.arg))
+SqlRejected(p) ==
+    LET lj == LabelsJoinIdx(p)
+    IN  lj # 0 /\ \E i \in (lj + 1)..Len(p) : UsesLike(p[i]) /\ ~\E j \in lj..(i - 1) : RenewAfter(p, j)
+
+PlanRowP(pp, db, i) ==
+    LET ch == CHPipe(pp)
+        r1 == SqlPipe(ch, 1, db[i], NoLabels, LabelsJoinIdx(ch), db)
+    IN  IF ~r1.ok \/ BreakIdx(pp) = 0 THEN r1 ELSE GoPipeRun(GoPipe(pp), 1, db[i], r1.lbls)
+
+PlanRows(q, db) ==
+    LET pp   == ParsedPipe(q.p, 1)
+        ch   == CHPipe(pp)
         fps  == ApplySimple(FpSel(q.m, db), ch, 1, db)
         (* planner_main_init.go + planner_fingerprint_filter.go *)
         main == {i \in DOMAIN db : db[i].t >= q.from /\ db[i].t < q.to /\ TypeIn(db[i].ty) /\ db[i].s \in fps}
-        rows == {i \in main : PlanRow(q, db, i).ok}
+        rows == {i \in main : PlanRowP(pp, db, i).ok}
         (* SQL LIMIT only when the whole script runs in ClickHouse (finalize); otherwise the Go LimitPlanner,   *)
         (* which forwards rows while sent < limit (limit 0: none)                                               *)
-        sel  == IF BreakIdx(q.p) = 0
+        sel  == IF BreakIdx(pp) = 0
                 THEN IF q.lim = 0 THEN rows ELSE FirstN(rows, db, q.fwd, q.lim)
                 ELSE FirstN(rows, db, q.fwd, q.lim)
-    IN  {[id |-> i, lbls |-> PlanRow(q, db, i).lbls] : i \in sel}
+    IN  {[id |-> i, lbls |-> PlanRowP(pp, db, i).lbls] : i \in sel}
+
+(* [err |-> the request fails, rows |-> the answer]                                                             *)
+PlanEval(q, db) ==
+    IF SqlRejected(CHPipe(ParsedPipe(q.p, 1))) THEN [err |-> TRUE, rows |-> {}]
+    ELSE [err |-> FALSE, rows |-> PlanRows(q, db)]
 =============================================================================
